@@ -104,12 +104,16 @@ def run(ctx):
             # no area may be created for non-LOAD segments
             continue
         chunks = [[]]
+        cstarts = [0]
         for e in o.path.events:
             if e[0] == "next" and e[1] == "seg":
                 chunks.append([])  # one chunk per program header visited on this path
+                cstarts.append(e[3] if len(e) > 3 else 0)
             else:
                 chunks[-1].append(e)
-        for evs in chunks:
+        cstarts.append(len(o.path.conds))
+        for ci_, evs in enumerate(chunks):
+            chunk_conds = o.path.conds[cstarts[ci_]:cstarts[ci_ + 1]]
             failed = is_err(o) and evs is chunks[-1]
             creates = [e for e in evs if e[0] in ("init_area", "init_zero")]
             writes = [e for e in evs if e[0] == "write_bytes"]
@@ -169,15 +173,39 @@ def run(ctx):
                 n_perm += 1
                 if not seg_field(e[1], "p_vaddr"):
                     pbad = pbad or "mem_prot on %s, expected p_vaddr" % A.show(e[1])
-                m = I.decide(o.path, e[2])
+                # per class of p_flags (the eight R/W/X combinations, alone and with other flag bits set): the mask the
+                # path hands to mem_prot, evaluated under the class, must be the R/W/X permutation; classes the path's own
+                # tests on p_flags exclude are skipped. Works for branching code and for table lookups alike.
                 fl = ("field", EM.SEG, "p_flags")
-                bits = [o.path.bitfacts.get((fl, i)) for i in range(3)]
-                if m is None or any(b is None for b in bits):
-                    pbad = pbad or "permission mask %s not decided by the p_flags tests" % A.show(e[2])
-                else:
-                    want = (bits[2] << 0) | (bits[1] << 1) | (bits[0] << 2)
-                    if m != want:
-                        pbad = pbad or "p_flags X/W/R=%d%d%d -> mask %d, expected %d" % (bits[0], bits[1], bits[2], m, want)
+                # (every header on one path is the same symbolic header: decisions on its fields are remembered per term,
+                # so the whole path's tests apply)
+                pconds = [c for c in o.path.conds if H.mentions(c[0], fl)]
+                ncls = 0
+                for base in range(8):
+                    for ex in (0, 0x8, 0xFFFFFFF8):
+                        v = base | ex
+                        env = {fl: v, A.W(fl, 32): v, A.W(fl, 64): v}
+                        skip = False
+                        for c in pconds:
+                            g = U.eval_term(c[0], env, o.path)
+                            if g is None:
+                                continue
+                            if (c[1] == "==" and g != c[2]) or (c[1] == "!=" and g in c[2]):
+                                skip = True
+                                break
+                        if skip:
+                            continue
+                        m = I.decide(o.path, e[2])
+                        if m is None:
+                            m = U.eval_term(e[2], env, o.path)
+                        want = ((base >> 2) & 1) | (base & 2) | ((base & 1) << 2)
+                        if m is None:
+                            pbad = pbad or "permission mask %s cannot be evaluated for p_flags = %#x" % (A.show(e[2])[:60], v)
+                        elif m != want:
+                            pbad = pbad or "p_flags = %#x -> mask %d, expected %d" % (v, m, want)
+                        ncls += 1
+                if ncls == 0:
+                    pbad = pbad or "no p_flags class is consistent with this path"
             if creates and not failed and not prots:
                 pbad = pbad or "a loaded segment never gets its permissions"
     # ---- non-loadable headers: per program header visited, the comparisons of its p_type decide which kind it is
